@@ -296,6 +296,12 @@ P2P_GOALS = {
                                         {"a": "Pub", "s": "s1", "t": "p12", "c": "c1", "noecho": False, "chan": False},
                                         {"a": "Note", "s": "s1", "t": "p12", "what": "recv", "seq": 1, "chan": False},
                                         {"a": "Pub", "s": "s2", "t": "p12", "c": "c2", "noecho": False, "chan": False},
+                                        # notes of the user who unsubscribed (detached session: routed through the hub), inside (recv, last]
+                                        {"a": "Note", "s": "s1", "t": "p12", "what": "recv", "seq": 2, "chan": False},
+                                        {"a": "Note", "s": "s1", "t": "p12", "what": "recv", "seq": 3, "chan": False},
+                                        {"a": "Note", "s": "s1", "t": "p12", "what": "recv", "seq": 4, "chan": False},
+                                        {"a": "Note", "s": "s1", "t": "p12", "what": "read", "seq": 2, "chan": False},
+                                        {"a": "Note", "s": "s1", "t": "p12", "what": "kp", "seq": 0, "chan": False},
                                         {"a": "Sub", "s": "s1", "t": "p12", "mode": ["-"], "chan": False, "bg": False},
                                         {"a": "Pub", "s": "s1", "t": "p12", "c": "c1", "noecho": False, "chan": False}]),
     "p2p_one_side_unsubscribed_unloaded": ('st.topics["p12"].exists /\\ st.subs["p12"]["u1"].st = "del" /\\ st.subs["p12"]["u2"].st = "live" /\\ ~st.cache["p12"].loaded '
@@ -339,6 +345,22 @@ MARK_GOALS = {
                             {"a": "Note", "s": "s2", "t": "g1", "what": "recv", "seq": 2, "chan": False},
                             {"a": "Note", "s": "s2", "t": "g1", "what": "read", "seq": 3, "chan": False},
                             {"a": "Note", "s": "s2", "t": "g1", "what": "read", "seq": 4, "chan": False}]),
+}
+# notes relayed while the users' OTHER sessions sit on 'me' only (typing notes must not come back to the typist) - needs me topics
+NOTE_GOALS = {
+    "typists_with_second_session_on_me": ('st.topics["g1"].exists /\\ st.topics["g1"].seq >= 1 /\\ "g1" \\in M(st.sess["s1"].subs) /\\ "g1" \\in M(st.sess["s2"].subs)',
+                                          [{"a": "Sub", "s": "s3", "t": "me", "mode": ["-"], "chan": False, "bg": False},
+                                           {"a": "Sub", "s": "s4", "t": "me", "mode": ["-"], "chan": False, "bg": False},
+                                           {"a": "Note", "s": "s1", "t": "g1", "what": "kp", "seq": 0, "chan": False},
+                                           {"a": "Note", "s": "s2", "t": "g1", "what": "kp", "seq": 0, "chan": False},
+                                           {"a": "Note", "s": "s2", "t": "g1", "what": "recv", "seq": 1, "chan": False},
+                                           {"a": "Note", "s": "s2", "t": "g1", "what": "read", "seq": 1, "chan": False},
+                                           {"a": "Sub", "s": "s1", "t": "p12", "mode": ["-"], "chan": False, "bg": False},
+                                           {"a": "Sub", "s": "s2", "t": "p12", "mode": ["-"], "chan": False, "bg": False},
+                                           {"a": "Pub", "s": "s1", "t": "p12", "c": "c1", "noecho": False, "chan": False},
+                                           {"a": "Note", "s": "s1", "t": "p12", "what": "kp", "seq": 0, "chan": False},
+                                           {"a": "Note", "s": "s2", "t": "p12", "what": "kp", "seq": 0, "chan": False},
+                                           {"a": "Note", "s": "s2", "t": "p12", "what": "recv", "seq": 1, "chan": False}]),
 }
 # goals on unusual writer permissions (used by the properties whose request kinds include publishes)
 PERM_GOALS = {
@@ -425,7 +447,7 @@ OBO_GOALS = {
 }
 
 
-def goal_behaviours(ctx, users, sess, topics, names=None, maxsubs=3, marks=False, perms=False, suspend_root=None, obo_root=None, hist=False, obo_pub_root=None, chan=False):
+def goal_behaviours(ctx, users, sess, topics, names=None, maxsubs=3, marks=False, perms=False, suspend_root=None, obo_root=None, hist=False, obo_pub_root=None, chan=False, me_notes=False):
     import concurrent.futures
     goals = dict(GOALS)
     p2p = "p12" in topics
@@ -442,6 +464,8 @@ def goal_behaviours(ctx, users, sess, topics, names=None, maxsubs=3, marks=False
         goals.update(HIST_GOALS)
     if chan:
         goals.update(CHAN_GOALS)
+    if me_notes:
+        goals.update(NOTE_GOALS)
     if obo_pub_root:
         for k, (e, tail) in OBO_PUB_GOALS.items():
             goals[k] = (e, json.loads(json.dumps(tail).replace('"ROOT"', json.dumps(obo_pub_root))))
@@ -453,8 +477,13 @@ def goal_behaviours(ctx, users, sess, topics, names=None, maxsubs=3, marks=False
     names = names or list(goals)
     # a goal that speaks of users or sessions outside this population does not apply to it
     import re as _re
+    def _known(txt):
+        return all(x in users for x in _re.findall(r'"(u\d+)"', txt)) and all(x in sess or x in (suspend_root, obo_root, obo_pub_root) for x in _re.findall(r'"(s\d+)"', txt))
+    # tail steps that name users / sessions outside this population are dropped; a goal whose predicate does is skipped
+    for nm in list(goals):
+        goals[nm] = (goals[nm][0], [st for st in goals[nm][1] if _known(json.dumps(st))])
     def _applies(nm):
-        txt = goals[nm][0] + json.dumps(goals[nm][1])
+        txt = goals[nm][0]
         return all(x in users for x in _re.findall(r'"(u\d+)"', txt)) and all(x in sess or x in (suspend_root, obo_root, obo_pub_root) for x in _re.findall(r'"(s\d+)"', txt))
     names = [nm for nm in names if _applies(nm)]
     consts = mc_consts(users, sess, topics, DEV_BUILT, ["-", "N", "JR", "JRS", "JRA", "JRAS", "JRASO"], ["-", "N", "JR", "JRS", "JRA", "JRAS", "JRASO"],
@@ -471,7 +500,7 @@ def goal_behaviours(ctx, users, sess, topics, names=None, maxsubs=3, marks=False
     def one(name):
         expr, tail = goals[name]
         mod = "Goal_" + name
-        cs = consts_chan if name in CHAN_GOALS else consts_obo if name in OBO_GOALS or name in HIST_GOALS else consts_susp if name in OBO_PUB_GOALS else consts_susp if name in SUSP_GOALS else consts_p2p if name in P2P_GOALS else consts_marks if name in MARK_GOALS else consts_perms if name in PERM_GOALS else consts
+        cs = consts_marks if name in NOTE_GOALS else consts_chan if name in CHAN_GOALS else consts_obo if name in OBO_GOALS or name in HIST_GOALS else consts_susp if name in OBO_PUB_GOALS else consts_susp if name in SUSP_GOALS else consts_p2p if name in P2P_GOALS else consts_marks if name in MARK_GOALS else consts_perms if name in PERM_GOALS else consts
         defs = "\n".join("c_%s == %s" % (k, v) for k, v in cs.items())
         with open(os.path.join(ctx.specdir, mod + ".tla"), "w") as fh:
             fh.write("---- MODULE %s ----\nEXTENDS TopicCore_MC\n%s\nNotGoal == ~(%s)\n====\n" % (mod, defs, expr))
@@ -479,9 +508,17 @@ def goal_behaviours(ctx, users, sess, topics, names=None, maxsubs=3, marks=False
             fh.write("CONSTANTS\n" + "\n".join("  %s <- c_%s" % (k, k) for k in cs) +
                      "\nINIT Init\nNEXT Next\nINVARIANT NotGoal\nVIEW StView\nCHECK_DEADLOCK FALSE\n")
         tj = os.path.join(ctx.scratch, mod + "_cex.json")
-        r = ctx.tlc(mod, workers=4, timeout=300, extra=["-dumpTrace", "json", tj])
-        if not os.path.exists(tj):
-            return name, None
+        for attempt in (1, 2, 3):
+            r = ctx.tlc(mod, workers=4, timeout=300, extra=["-dumpTrace", "json", tj])
+            if os.path.exists(tj):
+                break
+            if "No error has been found" in r.out:
+                # the goal state is not reachable under this property's population / constants: nothing to replay
+                vlib.log("goal %s: not reachable in this population" % name)
+                return name, None
+            # TLC did not finish (load, timeout): a silently missing goal would make the check's power depend on the weather
+            if attempt == 3:
+                raise vlib.Infra("goal model %s did not produce its witness (TLC rc=%s): %s" % (name, r.rc, r.out[-300:]))
         data = json.load(open(tj))
         steps = [v["last"] for idx, v in data["counterexample"]["state"] if v.get("last") and v["last"].get("a") != "Init"]
         return name, steps + tail
